@@ -231,6 +231,8 @@ def chain_traces_1d(rng, quick):
                         try:
                             grid = CTMCGrid(h=st * unit, origin_coordinate=origin, axes=[axis.copy()])
                             smp = MarkovChainProcess(model=atomic.AtomLevyModel(atoms, sigma=0.0), method=SamplingMethod.INVERSION, grid=grid).sampling
+                            if not hasattr(smp, "_max_storage"):
+                                raise AttributeError("'InversionMethod' object has no attribute '_max_storage'")
                             smp._max_storage = cap
                             order = [rng.choice([N - 1, N - 2, N // 2, rng.randrange(N)]) for _ in range(12)]
                             ev.append({"e": "Hist", "is": order, "ks": [idx(smp.sample_with_u(us[i])) for i in order]})
@@ -311,6 +313,8 @@ def chain_traces_nd(rng, quick):
                 try:
                     grid = CTMCGrid(h=st * atomic.UNIT, origin_coordinate=nl, axes=[axis.copy() for _ in range(d)])
                     smp = MarkovChainLevyCopula(atomic.atom_copula_model(atoms, d), grid, SamplingMethod.INVERSION).sampling
+                    if not hasattr(smp, "_max_storage"):
+                        raise AttributeError("'InversionMethod' object has no attribute '_max_storage'")
                     smp._max_storage = cap
                     idx = lambda inc: index.get(tuple(int(v) for v in inc), 0)
                     order = [rng.choice([N - 1, N - 2, N // 2, rng.randrange(N)]) for _ in range(12)]
